@@ -290,6 +290,25 @@ def check_url_loop(P, R):
     R.ob('C19.c', f, rets[-1] if rets else f.node, ok, text="return ''.join(parts)", detail='' if ok else 'the parts are not concatenated in order', nontrivial=False)
 
 
+def as_lambda(P, mod, v):
+    """(parameter names, returned expression) of a lambda, or of a module-level function of the package whose body is one `return <expr>`"""
+    if isinstance(v, ast.Lambda):
+        return [a.arg for a in v.args.args], v.body
+    if isinstance(v, ast.Name):
+        r = P.resolve_name(mod, v.id)
+        if r and r[0] == 'func':
+            body = [st for st in r[1].node.body if not (isinstance(st, ast.Expr) and isinstance(st.value, ast.Constant))]
+            if len(body) == 1 and isinstance(body[0], ast.Return) and body[0].value is not None:
+                return list(r[1].params), body[0].value
+            if len(body) == 2 and isinstance(body[0], ast.Assign) and isinstance(body[1], ast.Return) and isinstance(body[1].value, ast.Tuple):
+                # mask = <expr>; return mask, conv, fmt
+                t0 = body[0].targets[0]
+                if isinstance(t0, ast.Name):
+                    elts = [body[0].value if (isinstance(e, ast.Name) and e.id == t0.id) else e for e in body[1].value.elts]
+                    return list(r[1].params), ast.Tuple(elts=elts, ctx=ast.Load())
+    return None
+
+
 def check(P, R):
     R.rule('C19.a', 'built values validated in the matcher\'s context, by consumed length', floor=3)
     R.rule('C19.b', 'converter / formatter pairs', floor=4)
@@ -304,8 +323,9 @@ def check(P, R):
     lookahead = []
     for k, v in zip(table.keys, table.values):
         name = const(k)
-        if isinstance(v, ast.Lambda) and isinstance(v.body, ast.Tuple) and v.body.elts:
-            pats = RX.pattern_literal(v.body.elts[0]) or []
+        lam = as_lambda(P, ff.module, v)
+        if lam is not None and isinstance(lam[1], ast.Tuple) and lam[1].elts:
+            pats = RX.pattern_literal(T.module_value(ff, lam[1].elts[0])) or []
             for pt in pats:
                 tree = RX.parse(pt.replace('\x00HOLE\x00', 'X'))
                 if tree is not None and RX.has_lookaround(tree):
@@ -314,6 +334,8 @@ def check(P, R):
     def _from_attr(name, attr):
         for n in g.nodes:
             for d in rd.gen.get(n, []):
+                if d.name == name and d.value is not None and isinstance(d.value, ast.Subscript) and dotted(d.value.value) == f'self.{attr}':
+                    return True          # f_in = self.filters[i] without a local alias of the table
                 if d.name == name and d.value is not None and isinstance(d.value, ast.Subscript) and isinstance(d.value.value, ast.Name):
                     for n2 in g.nodes:
                         for d2 in rd.gen.get(n2, []):
@@ -364,20 +386,22 @@ def check(P, R):
     n_conv = 0
     for k, v in zip(table.keys, table.values):
         name = const(k)
-        if not (isinstance(v, ast.Lambda) and isinstance(v.body, ast.Tuple) and len(v.body.elts) == 3):
+        lam = as_lambda(P, ff.module, v)
+        if not (lam is not None and isinstance(lam[1], ast.Tuple) and len(lam[1].elts) == 3):
             continue
-        mask, conv, fmt = v.body.elts
+        mask, conv, fmt = lam[1].elts
         if is_const(conv, None):
             R.ob('C19.b', ff.fq, None, is_const(fmt, None), text=f'filter {name}: no converter, no formatter', detail='' if is_const(fmt, None) else
                  f'filter {name} formats values it does not convert', nontrivial=False, key_extra=str(name))
             continue
         n_conv += 1
         cname = dotted(conv)
-        ok = isinstance(fmt, ast.Lambda)
+        flam = as_lambda(P, ff.module, fmt)
+        ok = flam is not None and len(flam[0]) >= 1
         det = f'filter {name} converts with {cname} but has no formatter: url() would insert the Python object'
         if ok:
-            b = fmt.body
-            arg = fmt.args.args[0].arg
+            b = flam[1]
+            arg = flam[0][0]
             ok = isinstance(b, ast.Call) and dotted(b.func) == 'str' and len(b.args) == 1 and isinstance(b.args[0], ast.Call) \
                 and dotted(b.args[0].func) == cname and src(b.args[0].args[0]) == arg
             det = '' if ok else (f'the formatter of filter {name} is `{short(b)}`, not str({cname}(x)): a matched value does not get back the text '
@@ -388,6 +412,9 @@ def check(P, R):
     # one index per marker
     idxs = {}
     for x in walk_shallow(f.node):
+        if isinstance(x, ast.Subscript) and isinstance(x.slice, ast.Name) and isinstance(x.ctx, ast.Load) \
+                and dotted(x.value) in ('self.params', 'self.filters', 'self.filters_out'):
+            idxs.setdefault(x.slice.id, set()).add(dotted(x.value))       # the table indexed without a local alias
         if isinstance(x, ast.Subscript) and isinstance(x.slice, ast.Name) and isinstance(x.value, ast.Name) and isinstance(x.ctx, ast.Load):
             for n in g.nodes:
                 for d in rd.gen.get(n, []):
